@@ -167,6 +167,12 @@ def run(repo, rep, tier):  # noqa: F811 -- round-5 shape rules appended to the r
     if getattr(rep, "borrowed", False):
         return
     from ..core import round5 as _r5
+    # R02.7: PEP 646 star syntax of builtin generics as a codec shape (not normalised by typing.get_type_hints there)
+    import datetime as _D5
+    from ..core.dispatch import Entry as _E5
+    _star = [_E5("tuple[int, *tuple[date, ...]] (builtin star syntax)", tuple[int, *tuple[_D5.date, ...]], "unpacktuple", "conv")]
+    check_rows(rep, conformance.run_entries(repo, "PACK", _star), "R02.7", M_PACK, "the starred member is not recognised as an unpacked part")
+    rep.floor("R02.7", 1)
     from ..core.report import Only as _O5
     from . import c06 as _c06b
     _c06b._override_sibling(repo, _O5(rep, {"R06.11"}))
@@ -184,3 +190,6 @@ LEVEL_TEXT += _ADDR5C
 _ADDR5D = ' Borrowed: R06.11 (packer and schema resolve a serialize override with the same decision list; a deserialize-only dict strategy falls through to the next source).'
 EXPLANATION += _ADDR5D
 LEVEL_TEXT += _ADDR5D
+_ADDR5E = ' R02.7: the same comparison for `tuple[int, *tuple[date, ...]]` written with the builtin star syntax (a types.GenericAlias with __unpacked__, which reaches the registries un-normalised when it is a codec shape).'
+EXPLANATION += _ADDR5E
+LEVEL_TEXT += _ADDR5E
